@@ -108,6 +108,9 @@ NOREWRITE_HISTORIES = [
     ("[]", "[0]"), ("set()", "{0}", "{'a'}"), ("{}", "{1: 0}"), ("{1: 0}", "{1: 'a'}"), ("{'a': 0}", "{'a': 'a', 'b': 0}"),
     ("(0,)", "(0, 0)", "(0, 0, 0)", "('a',)", "('a', 'a')", "('a', 'a', 'a')"), ("[0]", "['a']", "[1.5]", "[None]", "[Base()]", "[[0]]", "[]"),
     ("0",), ("[Derived(), Derived2()]",), ("{'a': [], 'b': [0]}", "{'a': [0]}"),
+    # equal nested dicts below parents that differ (every observed dict at ['db'] has both keys)
+    ("{'db': {'host': 'h', 'port': 1}, 'retries': 0}", "{'db': {'host': 'h', 'port': 1}, 'retries': 'a'}"),
+    ("{'db': {'host': 'h'}, 'n': 0}", "{'db': {'host': 'h'}, 'n': None}", "{'db': {'host': 'h'}, 'n': 1.5}"),
 ]
 
 
@@ -148,14 +151,32 @@ def no_rewriter_stage(ctx: Ctx) -> Result:
                 texts["StubIndexBuilder"] = sib.get_stubs()["vfx.shapes"].render()
                 if os.path.exists(db):
                     os.unlink(db)
-                mcfg.reset(db=db, k=k)
-                mcfg.CONFIG.trace_store().add(traces)
+                # (the store holds many copies of the first row, as for a function called again and again: more raw rows
+                # than the query limit, fewer distinct ones)
+                mcfg.reset(db=db, k=k, limit=len(traces) + 2)
+                mcfg.CONFIG.trace_store().add([traces[0]] * (len(traces) + 4) + traces)
                 out, err = io.StringIO(), io.StringIO()
                 cli.main(["-c", "mcfg:fresh()", "--disable-type-rewriting", "stub", "vfx.shapes"], out, err)
                 texts["cli --disable-type-rewriting"] = out.getvalue()
             except Exception as e:  # noqa: BLE001
                 res.violate(Violation(ID, "exception", "no-rewriter-stage", case, f"raised {e!r}"))
                 continue
+            # a fourth way: the calls are really made under the tracer (StubIndexBuilder as logger), every value passed inside
+            # ONE list object whose only element is replaced in place between the calls
+            boxed_direct = None
+            try:
+                from monkeytype.tracing import trace_calls
+
+                sib2 = StubIndexBuilder("vfx.shapes", k)
+                box = [None]
+                with trace_calls(sib2, k, lambda code: code.co_filename == S.__file__):
+                    for v in vals:
+                        box[0] = v
+                        S.mfunc(box)
+                texts["traced calls (one list object, element replaced in place)"] = sib2.get_stubs()["vfx.shapes"].render()
+                boxed_direct = shrink_types([get_type([v], k) for v in vals], k)
+            except Exception as e:  # noqa: BLE001
+                res.violate(Violation(ID, "exception", "no-rewriter-stage", case, f"traced calls raised {e!r}"))
             for how, text in texts.items():
                 res.states += 1
                 res.transitions += 1
@@ -169,6 +190,12 @@ def no_rewriter_stage(ctx: Ctx) -> Result:
                 R = SE.normalize(fis[0].returns, info)
                 if isinstance(R, SE.Err):
                     continue   # C11's business (names the stub does not provide)
+                if how.startswith("traced calls"):
+                    if O.struct(R) != O.struct(boxed_direct):
+                        res.violate(Violation(ID, "loose", "no-rewriter:traced-calls", case, f"{how}: the return annotation {fis[0].returns_src!r} denotes {O.show(R)}, the values returned were the lists {[[e] for e in h]} whose inferred type is {O.show(boxed_direct)}"))
+                    else:
+                        res.nontrivial_n += 1
+                    continue
                 if O.struct(R) != O.struct(direct):
                     res.violate(Violation(ID, "loose", "no-rewriter:" + how.split(" ")[0], case, f"{how}: the return annotation {fis[0].returns_src!r} denotes {O.show(R)}, the inferred type (no rewriter asked for) is {O.show(direct)}"))
                 else:
